@@ -183,7 +183,7 @@ fn parse_v_text_directive(jsx_attr: &JSXAttr) -> Directive {
                 (**expr).clone()
             }
         }
-        None => {
+        _ => {
             HANDLER.with(|handler| {
                 handler.span_err(
                     jsx_attr.span,
@@ -195,7 +195,6 @@ fn parse_v_text_directive(jsx_attr: &JSXAttr) -> Directive {
                 value: true,
             }))
         }
-        _ => unreachable!(),
     };
 
     Directive::Text(expr)
@@ -216,7 +215,7 @@ fn parse_v_html_directive(jsx_attr: &JSXAttr) -> Directive {
                 (**expr).clone()
             }
         }
-        None => {
+        _ => {
             HANDLER.with(|handler| {
                 handler.span_err(
                     jsx_attr.span,
@@ -228,7 +227,6 @@ fn parse_v_html_directive(jsx_attr: &JSXAttr) -> Directive {
                 value: true,
             }))
         }
-        _ => unreachable!(),
     };
 
     Directive::Html(expr)
